@@ -2,6 +2,7 @@ package main
 
 import (
 	"bytes"
+	"io"
 	"sort"
 
 	blocks "github.com/ipfs/go-block-format"
@@ -47,7 +48,56 @@ func statsVal(st carv2.Stats) VL {
 		VN(st.AvgBlockLength), VN(st.MaxBlockLength), VN(st.MinBlockLength), VN(uint64(st.IndexCodec))}
 }
 
-func runInspectImpl(o iOpts, file []byte, validate bool) Val {
+// c13Probe reads up to 16 bytes from a reader handed out by the Reader.
+func c13Probe(r io.Reader) []byte {
+	buf := make([]byte, 16)
+	n, _ := io.ReadFull(r, buf)
+	return buf[:n]
+}
+
+func c13InspVal(st carv2.Stats, err error) Val {
+	if err != nil {
+		return VL{VT("insperr"), verr(err)}
+	}
+	return statsVal(st)
+}
+
+// c13History makes the calls of hist on the Reader (1 Roots, 2 DataReader, 3 IndexReader,
+// 4 Inspect(false), 5 Inspect(true)) and reports what each returned.
+func c13History(r *carv2.Reader, hist []uint64) Val {
+	out := VL{}
+	for _, op := range hist {
+		switch op {
+		case 1:
+			if roots, err := r.Roots(); err != nil {
+				out = append(out, VL{VT("rootserr"), verr(err)})
+			} else {
+				out = append(out, VL{VT("roots"), cidsVal(roots)})
+			}
+		case 2:
+			dr, err := r.DataReader()
+			if err != nil {
+				out = append(out, VL{VT("dataerr"), verr(err)})
+			} else {
+				out = append(out, VL{VT("data"), VB(c13Probe(dr))})
+			}
+		case 3:
+			ir, err := r.IndexReader()
+			if err != nil {
+				out = append(out, VL{VT("indexerr"), verr(err)})
+			} else if ir == nil {
+				out = append(out, VL{VT("noindex")})
+			} else {
+				out = append(out, VL{VT("index"), VB(c13Probe(ir))})
+			}
+		default:
+			out = append(out, c13InspVal(r.Inspect(op == 5)))
+		}
+	}
+	return out
+}
+
+func runInspectImpl(o iOpts, file []byte, validate bool, hist []uint64) Val {
 	// the reference scan: the real BlockReader over the same bytes
 	var scan Val
 	if br, err := carv2.NewBlockReader(bytes.NewReader(file), o.r().v2()...); err != nil {
@@ -84,14 +134,10 @@ func runInspectImpl(o iOpts, file []byte, validate bool) Val {
 	}
 	r, err := carv2.NewReader(bytes.NewReader(file), o.r().v2()...)
 	if err != nil {
-		return VL{VL{VT("newerr"), verr(err)}, scan, VL{VT("none")}, tscan}
+		return VL{VL{VT("newerr"), verr(err)}, scan, VL{VT("none")}, tscan, VL{}}
 	}
-	var insp Val
-	if st, err := r.Inspect(validate); err != nil {
-		insp = VL{VT("insperr"), verr(err)}
-	} else {
-		insp = statsVal(st)
-	}
+	histObs := c13History(r, hist)
+	insp := c13InspVal(r.Inspect(validate))
 	var idx Val = VL{VT("none")}
 	if r.Version != 1 && r.Header.HasIndex() {
 		ir, err := r.IndexReader()
@@ -103,7 +149,7 @@ func runInspectImpl(o iOpts, file []byte, validate bool) Val {
 			idx = VL{VT("idx"), VN(uint64(code))}
 		}
 	}
-	return VL{insp, scan, idx, tscan}
+	return VL{insp, scan, idx, tscan, histObs}
 }
 
 // inspectTables: the oracle tables of scanTables (what the BlockReader can ask about) plus the
@@ -136,10 +182,14 @@ func inspectTables(file []byte) (Val, Val) {
 	return hok, hdrs
 }
 
-func emitInspect(c *Ctx, o iOpts, file []byte, validate bool, how string, nontrivial bool) {
+func emitInspect(c *Ctx, o iOpts, file []byte, validate bool, how string, hist []uint64, nontrivial bool) {
 	hok, hdrs := inspectTables(file)
-	in := VL{o.val(), VB(file), hok, hdrs, vbool(validate), VT(how)}
-	c.Emit("inspect", in, runInspectImpl(o, file, validate), nontrivial)
+	hv := VL{}
+	for _, h := range hist {
+		hv = append(hv, VN(h))
+	}
+	in := VL{o.val(), VB(file), hok, hdrs, vbool(validate), VT(how), hv}
+	c.Emit("inspect", in, runInspectImpl(o, file, validate, hist), nontrivial)
 }
 
 func init() {
@@ -147,6 +197,12 @@ func init() {
 		l := in.(VL)
 		ol := l[0].(VL)
 		o := iOpts{ol[0].(VN) != 0, uint64(ol[1].(VN)), uint64(ol[2].(VN))}
-		return runInspectImpl(o, []byte(l[1].(VB)), l[4].(VN) != 0)
+		var hist []uint64
+		if len(l) > 6 {
+			for _, h := range l[6].(VL) {
+				hist = append(hist, uint64(h.(VN)))
+			}
+		}
+		return runInspectImpl(o, []byte(l[1].(VB)), l[4].(VN) != 0, hist)
 	})
 }
